@@ -5,6 +5,7 @@ import (
 	"go/ast"
 	"go/token"
 	"go/types"
+	"os"
 	"sort"
 	"strings"
 
@@ -78,6 +79,27 @@ func isParam(f *chk.Fn, name string) func(ast.Expr) bool {
 	if v == nil {
 		if r := f.Recv(); r != nil && r.Name() == name {
 			v = r
+		}
+	}
+	if rec := os.Getenv("MLB_RECORD_PARAMS"); rec != "" && v != nil {
+		for i := 0; ; i++ {
+			pv := f.Param(i)
+			if pv == nil && i > 12 {
+				break
+			}
+			if pv == v {
+				if fh, err := os.OpenFile(rec, os.O_APPEND|os.O_CREATE|os.O_WRONLY, 0o644); err == nil {
+					fmt.Fprintf(fh, "%s\t%s\t%d\n", f.Name(), name, i)
+					fh.Close()
+				}
+				break
+			}
+		}
+	}
+	if v == nil {
+		// the parameter was renamed: its position on the confirmed tree (frozen table, tools/gen_params.sh)
+		if idx, ok := paramIndex[f.Name()+"#"+name]; ok {
+			v = f.Param(idx)
 		}
 	}
 	return func(e ast.Expr) bool { return v != nil && f.Denotes(e, v) }
@@ -695,4 +717,12 @@ func elementOf(f *chk.Fn, coll func(ast.Expr) bool) func(ast.Expr) bool {
 		}
 		return false
 	}
+}
+
+// isParamNamedOrIdx: the parameter by name, or (when it was renamed) by position.
+func isParamNamedOrIdx(f *chk.Fn, name string, idx int) func(ast.Expr) bool {
+	if f.ParamNamed(name) != nil {
+		return isParam(f, name)
+	}
+	return isParamIdx(f, idx)
 }
